@@ -32,7 +32,8 @@ CLAIMS = {
         text="For every shipped class flagged symplectic: RK tables satisfy b_i a_ij + b_j a_ji = b_i b_j (<=1e-13) and the symmetry "
              "relations; splitting tables have exclusive drift/kick rows summing to one in a palindromic sequence; the step code "
              "applies each row as a shear evaluated at the running partial state with complementary masks; for the implicit symplectic tables 'accepted' implies "
-             "'stage equations solved' (acceptance typestate of C02.4 re-judged). By the cited theorems "
+             "'stage equations solved' (acceptance typestate of C02.4 re-judged); a kick mask given by the user reaches the splitting integrator (no @property read "
+             "through the class object, every desolver.backend name used by the mask code exists -- namespace resolved through the star imports). By the cited theorems "
              "this proves symplecticity/reversibility of the exact-arithmetic map for separable Hamiltonians; rounding-level and "
              "long-run energy behaviour are not decided."),
     "C11": dict(
@@ -126,7 +127,7 @@ CLAIMS["C08"] = dict(
     text="Decides: whether the root search reports success is invariant under rescaling of the event function (no function value is ordered against an abscissa "
          "tolerance); the bracket handed to the root finder is (start, end) of the step just committed, read after the commit and before the rollback; a search "
          "function is built for every event and evaluated at (t, sol(t)); the interpolant of the step is in the solution before the search and pruning happens only "
-         "after it; the samples that classify a crossing as rising/falling lie before/after the root ALONG the step (signed offsets); the roots are ordered by sign(dt)*t before the only operation that discards crossings (truncation after the first terminal event). The design's 'keep the most recent pieces in either direction' clause was withdrawn as a false alarm (see DESIGN.md). Not decided: convergence "
+         "after it; the samples that classify a crossing as rising/falling lie before/after the root ALONG the step (signed offsets); the vectorised root search decides sign relations from signs, not from products that underflow; the roots are ordered by sign(dt)*t before the only operation that discards crossings (truncation after the first terminal event). The design's 'keep the most recent pieces in either direction' clause was withdrawn as a false alarm (see DESIGN.md). Not decided: convergence "
          "of Brent's iteration on a given steep function.")
 CLAIMS["C09"] = dict(
     category="other", design="DESIGN.md 4/C09",
@@ -158,7 +159,8 @@ CLAIMS["C14"] = dict(
          "safeguard 'interpolated point outside ((3a+b)/4, b) => bisect' is a tautology of the extracted predicate in both; the scalar and the vectorised solver "
          "compute the same boolean function of the same arithmetic atoms and stop on the same tests; both loops are capped by a counter; over sign(f(a)f(b)) in {-,0,+} "
          "the scalar solver rejects exactly '+', returns `product <= 0` as success, and the vector success is implied by an exact zero at the end point; "
-         "the bracket update is interpreted over all sign patterns (f(a), f(b), f(s)): the sign change is kept, the new point becomes an end, abscissae stay paired with their values."
+         "the bracket update is interpreted over all sign patterns (f(a), f(b), f(s)): the sign change is kept, the new point becomes an end, abscissae stay paired with their values; "
+         "sign relations of two function values are decided from their signs, never from a floating-point product that underflows to zero."
          " Not decided: that the "
          "returned point is within the tolerance of a sign change.")
 CLAIMS["C15"] = dict(
